@@ -465,3 +465,13 @@ ben("C15", "c15-benign-copy-to-self-guard-swapped", MODEL, "    if dest is self:
 brk("C11", "c11-voice-tag-opens-no-span", VTTR, "    if tag.startswith(\"rt\") and self.ruby_rtc is not None:", "    if tag == \"v\":\n      return\n\n    if tag.startswith(\"rt\") and self.ruby_rtc is not None:", "PAIR-span")
 
 VARIANTS = V
+
+# ---------------------------------------------------------------------------------------- rules added before round 12
+brk("C18", "c18-strict-set-lang", MODEL, "    self._lang = str(language)\n", "    if not isinstance(language, str):\n      raise TypeError(\"Argument must be a string\")\n    self._lang = language\n", "NUL-optarg",
+    "the element's language setter rejects non-strings; the WebVTT reader passes the Optional annotation of a <lang> tag unchecked")
+brk("C04", "c04-par-implicit-end-own-axis", ELS, "max(self.implicit_end, self.desired_begin + child_element.desired_end)", "max(self.implicit_end, child_element.desired_end)", "FRAME-time",
+    "the defect repaired by b5a6776: a child's end, relative to the element, compared with the element's implicit end, relative to the parent")
+brk("C04", "c04-seq-implicit-end-own-axis", ELS, "child_element.desired_end + self.desired_begin\n", "child_element.desired_end\n", "FRAME-time", "the sequential branch stores a child-relative time as the implicit end")
+brk("C04", "c04-end-from-desired-begin", ELS, "        self.desired_end = self.implicit_begin + self.explicit_end\n\n      else:", "        self.desired_end = parent_ctx.desired_begin + self.explicit_end\n\n      else:", "FRAME-time",
+    "end measured from the parent's begin on the grandparent's axis")
+ben("C04", "c04-benign-par-implicit-end-swapped", ELS, "max(self.implicit_end, self.desired_begin + child_element.desired_end)", "max(child_element.desired_end + self.desired_begin, self.implicit_end)", "operands swapped")
